@@ -1,6 +1,6 @@
 """C17 - see DESIGN.md 5/C17 (Lifecycle.tla)."""
 from harness import core
-from checks import suite_lifecycle
+from checks import suite_lifecycle, suite_drolifecycle
 
 
 def main(tier):
@@ -13,6 +13,7 @@ def main(tier):
     rep.assumptions = ['TLC 1.8', 'ECOS solves the small conic programs to 1e-5 (5e-4 with p-norm / exp items)',
                        'oracle = the same library on a fresh single-constraint model (relational, as the property is stated)']
     suite_lifecycle.run(rep, tier, props=('C17',))
+    suite_drolifecycle.run(rep, tier, props=('C17',))
     return rep.finish()
 
 
